@@ -233,6 +233,12 @@ impl LogState {
             } else {
                 String::new()
             };
+            #[cfg(feature = "verif")]
+            if line.is_empty() {
+                if let Some((fid, ..)) = info.as_ref() {
+                    redo::verif::point("log.eof", &format!("{}", fid));
+                }
+            }
             if line.is_empty() && (!matches.is_present("follow") || !was_locked) {
                 // file not locked, and no new lines: done
                 #[cfg(feature = "verif")]
